@@ -300,3 +300,32 @@ pub fn generate(ch: &mut Choices, opts: &ExtOpts) -> ExtProg {
     let sep = *[" ", "\n", "  \n "].get(ch.below(3)).unwrap();
     ExtProg { source: items.join(sep), features: feats, has_meta, expect_fail }
 }
+
+/// a straight-line program over the whole native dictionary: each item is a word from the typed table of C13 with
+/// literal arguments that (mostly) make it succeed; a binary input is opened first so that the cursor words work.
+/// The walk is cut at the first failing step like for every other program.
+pub fn dictionary(ch: &mut Choices, max_items: usize) -> ExtProg {
+    use crate::props::c13;
+    let mut items: Vec<String> = vec![format!("{} open-bitstr u8 drop", crate::xs::bits_lit(&c13::INPUT.iter().flat_map(|b| (0..8).rev().map(move |k| (b >> k) & 1 == 1)).collect::<Vec<_>>()))];
+    let n = 1 + ch.below(max_items);
+    for _ in 0..n {
+        let (word, alts) = c13::TABLE[ch.below(c13::TABLE.len())];
+        if ["assert", "assert-eq", "error", "exit"].contains(&word) {
+            continue;
+        }
+        let alts: Vec<&str> = alts.split('|').collect();
+        let alt = alts[ch.below(alts.len())];
+        let mut s = String::new();
+        for code in alt.split_whitespace() {
+            s.push_str(&crate::val::src(&c13::gen_arg(ch, code)));
+            s.push(' ');
+        }
+        s.push_str(word);
+        if ch.chance(1, 3) {
+            s.push_str(" drop");
+        }
+        items.push(s);
+    }
+    ExtProg { source: items.join("\n"), features: vec!["dictionary-words"], has_meta: false, expect_fail: false }
+}
+
